@@ -1,6 +1,7 @@
 package harness
 
 import (
+	"errors"
 	"fmt"
 	"os"
 	"path/filepath"
@@ -154,6 +155,10 @@ func (x *crashExec) onEvent(ev kvh.Event) {
 		return
 	}
 	x.eventN++
+	if os.Getenv("VERIF_DEBUG") != "" {
+		fs, _ := gIO.Get(ev.Path)
+		fmt.Printf("DEBUG event %d %s %s n=%d name=%s (logical %d synced %d)\n", x.eventN, ev.Kind, relTo(x.r.Base, ev.Path), ev.N, ev.Name, fs.Logical, fs.Synced)
+	}
 	if x.selected(x.eventN) {
 		x.freeze(ev)
 	}
@@ -173,6 +178,21 @@ func (x *crashExec) cutVectors(inst *kvh.Instant) []map[string]int64 {
 	if x.c.Only != nil {
 		if len(x.c.Only.Cuts) == 0 {
 			return nil
+		}
+		// a pinned cut vector only applies if it is a possible power-loss outcome of THIS execution: every cut
+		// must lie inside the unsynced tail of its file at this instant (event numbers shift with the map order of
+		// Merge, and a case harvested from a defective tree can name a file that is synced here)
+		for rel, c := range x.c.Only.Cuts {
+			ok := false
+			for _, f := range uns {
+				if f.Rel == rel && c >= f.Synced && c <= f.Logical {
+					ok = true
+				}
+			}
+			if !ok {
+				x.cs.labels["pinned-cut-not-admissible-here"]++
+				return nil
+			}
 		}
 		return []map[string]int64{x.c.Only.Cuts}
 	}
@@ -375,6 +395,32 @@ func (x *crashExec) verify(inst *kvh.Instant, upper int) {
 				}
 				dump["~continuation-batch"] = bv
 				x.cs.labels["batch-commit-and-restart-after-crash-inside-batch"]++
+			}
+			if (inst.InFlight && inst.OpKind == "merge") || (inst.Event.Seq+vi)%5 == 0 {
+				// later history on the recovered directory: delete a live key, run a complete Merge; the restart
+				// below adopts it. What an interrupted merge left behind must not leak into the new one.
+				var ks []string
+				for k := range dump {
+					if !strings.HasPrefix(k, "~continuation") {
+						ks = append(ks, k)
+					}
+				}
+				sort.Strings(ks)
+				if len(ks) > 0 {
+					victim := ks[(inst.Event.Seq+vi)%len(ks)]
+					if err := db.Delete([]byte(victim)); err != nil {
+						_ = db.Close()
+						x.fail, x.failSpec = &kvh.Fail{Sig: "write-after-recovery-fails", Msg: where + ": Delete on the recovered database: " + err.Error()}, spec
+						return
+					}
+					delete(dump, victim)
+				}
+				if err := db.Merge(); err != nil && !errors.Is(err, kv.ErrMergeFileIDConflict) && !errors.Is(err, kv.ErrMergeRatioUnreached) {
+					_ = db.Close()
+					x.fail, x.failSpec = &kvh.Fail{Sig: "merge-after-recovery-fails", Msg: where + ": Merge on the recovered database: " + err.Error()}, spec
+					return
+				}
+				x.cs.labels["delete-merge-and-restart-after-recovery"]++
 			}
 			d = kvh.StateDigest(dump)
 			x.cs.labels["write-and-restart-after-recovery"]++
@@ -662,6 +708,8 @@ func (x *crashExec) openArmed(img string, reader kvh.Opt, level int, out *[]*kvh
 type dbHandle = interface {
 	Close() error
 	Put(key, value []byte) error
+	Delete(key []byte) error
+	Merge() error
 }
 
 // commitOne commits a one-record batch on a recovered database.
